@@ -3,7 +3,7 @@ TITLE = 'Saturation mutagenesis reports each single-character mutant at its own 
 CONTRACT_MODULES = ['contracts.utils_c', 'contracts.predict_c', 'contracts.ism_c']
 FUNCTIONS = ['tangermeme.ism._edit_distance_one', 'tangermeme.ism._attribution_score', 'tangermeme.ism.saturation_mutagenesis']
 BOUNDED = 'bounded.C09'
-BOUNDED_BUDGET = {'quick': 60, 'thorough': 600}
+BOUNDED_BUDGET = {'quick': 120, 'thorough': 600}
 LEVEL = 'other'
 EXPLANATION = 'deductive: mutant layout of _edit_distance_one (product-loop invariant, divmod lemma instances), saturation_mutagenesis raw outputs y0 / y_hat[n,c,p-start] for tensor and tuple models through the stack/cat + reshape path, args replicated per example; _attribution_score (whole function, integer target with and without a further trailing output dimension, and a slice of targets = mean over the selected outputs) = difference from y0 at the target, centred across characters, averaged over further output dimensions; saturation_mutagenesis with raw_outputs=False (tensor models, integer target): that function of (y0, y_hat), masked by the observed character unless hypothetical. bounded: slice/None targets, tuple outputs of the attribution path, per-mutant forward passes'
 ASSUMPTIONS = ['model row-wise, pure, deterministic', "0 <= start < end' <= L with end' = L+1+end for end<0 (the window of the statement)", 'lemma divmod_unique instances (Lean)']
